@@ -356,6 +356,7 @@ func TestC15_P_ShardedDirs(t *testing.T) {
 			depth = tr.Depth()
 		}
 		ls := st.LinkSystem()
+		st.RequireSession = len(names)%2 == 1 // (the store serves only loads that carry the request's context)
 		for _, reifier := range []string{"unixfs", "unixfs-preload", "Load+NodeReifier"} {
 			var cerr error
 			load := func() (datamodel.Node, error) {
@@ -363,7 +364,7 @@ func TestC15_P_ShardedDirs(t *testing.T) {
 					// a link system that reifies whatever it loads: child shards reach the directory already reified
 					ls2 := *ls
 					ls2.NodeReifier = unixfsnode.Reify
-					return ls2.Load(ipld.LinkContext{}, cidLink(root), protoForCid(root))
+					return ls2.Load(lcS, cidLink(root), protoForCid(root))
 				}
 				return loadReified(ls, root, reifier)
 			}
